@@ -93,3 +93,28 @@ def apply_one(core, name):
     if owner is core:
         import pony.orm
         if hasattr(pony.orm, attr): setattr(pony.orm, attr, new_fn)
+
+
+def main(argv):
+    """usage: cd /verif && .venv/bin/python -m checks.h_c34_canary MUTANT[+MUTANT...] [HARNESS-SUBSTRING,...] [TIMEOUT]
+    runs the selected C34 harnesses (default: all) with the mutant installed in every worker process"""
+    import os, time
+    os.environ['C34_MUTANT'] = argv[0]
+    from engine import ch
+    from engine.core import Report
+    from checks import c34, h_c34
+    sel = argv[1].split(',') if len(argv) > 1 else ['']
+    T = float(argv[2]) if len(argv) > 2 else 150
+    rep = Report('C34', 'other', 'canary ' + argv[0])
+    specs = [dict(module='checks.h_c34', fn=f, cond_timeout=T, path_timeout=T / 2, setup='setup') for f in h_c34.HARNESSES if any(s in f for s in sel)]
+    t = time.time()
+    ch.run_harnesses(rep, specs, c34.classify)
+    for ob in rep.obs:
+        print('%-28s %-12s %6.1fs key=%s cex=%s %s' % (ob.name.split('.')[-1], ob.verdict, ob.time_s, ob.key, ob.cex, '' if ob.verdict != 'inconclusive' else ob.detail[:200]))
+    for e in rep.harness_errors: print('HARNESS-ERROR', e[-400:])
+    print('wall %.1fs' % (time.time() - t))
+
+
+if __name__ == '__main__':
+    import sys
+    main(sys.argv[1:])
